@@ -606,8 +606,10 @@ def rule_deflate(ck, consts):
         a = c.args[0] if c.args else None
         if isinstance(a, ast.BinOp) and isinstance(a.op, ast.Add) and isinstance(a.right, ast.Constant) and isinstance(a.right.value, bytes):
             appended.append((c, a.right.value, q.dotted(a.left)))
+        elif isinstance(a, ast.Name) and a.id in dec.params():
+            appended.append((c, b"", a.id))  # positively: the argument is inflated as is, no tail re-appended
         else:
-            appended.append((c, None, None))
+            raise AnalysisError("_PerMessageDeflateDecompressor.decompress: the inflated operand %s is not of the form <argument> + <bytes constant>" % (q.unparse(a) if a is not None else "?"))
     TAIL = b"\x00\x00\xff\xff"
     ddparam = [p for p in dec.params() if p != "self"][0]
     for c, t, src in appended:
@@ -636,6 +638,12 @@ def rule_deflate(ck, consts):
                 v = n.value
                 if q.dotted(v.body) == attr and q.is_call(v.orelse, mk) and canon_fact(v.test, True) in ((attr, True), (attr + " is None", False)):
                     ok = True
+        if not ok:
+            # positively bad only when the object used is unconditionally fresh or unconditionally the stored one
+            uncond = [n for n in q.walk_body(fi.node) if isinstance(n, ast.Assign) and (q.is_call(n.value, mk) or q.dotted(n.value) == attr)]
+            direct_use = any(isinstance(c_.func, ast.Attribute) and q.dotted(c_.func.value) == attr for c_ in q.calls(fi.node))
+            if not uncond and not direct_use:
+                raise AnalysisError("%s: how the zlib object is chosen (persistent %s vs %s()) is not in a recognised form" % (fi.qualname, attr, mk))
         ck.ob(R, fi, fi.node, ok, "%s uses the persistent %s when context takeover is on, else a fresh object per message" % (fi.qualname, attr), construct="persistent-or-fresh %s: %s" % (attr, ok))
     for cls, attr, mk in (("_PerMessageDeflateCompressor", "self._compressor", "self._create_compressor"), ("_PerMessageDeflateDecompressor", "self._decompressor", "self._create_decompressor")):
         init = ck.func(W, cls + ".__init__")
